@@ -353,6 +353,7 @@ class TrGetMeta(Tr):
 
 PRELUDE = '''/- GENERATED by tools/gen_code.py from /repo/src/dcmstack — do not edit. -/
 import DcmVerif.Generated.Tables
+import DcmVerif.Model.Wrap
 set_option autoImplicit false
 set_option linter.unusedVariables false
 open Cls
@@ -504,6 +505,23 @@ def translate():
              'the count checks of `DicomStack.get_shape` (dcmstack.py), from `n_files = …` to `num_time_points = …`, '
              'translated statement by statement; the numpy spacing test is the parameter `spacing_ok`; the appended '
              'return gives (slices per volume, time points, vector components)')
+    # ---- get_data: trimming of unused time / vector axes
+    f = find_func(ds, 'DicomStack', 'get_data')
+    blk = None
+    if f is not None:
+        for s in f.body:
+            if isinstance(s, ast.If) and ast.unparse(s.test) == 'stack_shape[4] == 1':
+                blk = [s]
+    if blk is None:
+        missing.append('get_data_trim: statement `if stack_shape[4] == 1:` not found')
+    else:
+        tr = Tr({'vox_array[..., 0]': 'vox_array.dropLast0'}, {})
+        first = ast.parse('vox_array = vox_array_').body[0]
+        last = ast.parse('return vox_array').body[0]
+        emit('get_data_trim', '{α : Type} (vox_array_ : Wrap.Arr α) (stack_shape : List Nat) : Except PyErr (Wrap.Arr α)',
+             [first] + blk + [last], tr,
+             '"Trim unused time/vector dimensions" of `DicomStack.get_data` (dcmstack.py); `a[..., 0]` is the '
+             'model\'s `Arr.dropLast0`')
     # ---- get_data: file_idx expressions
     f = find_func(ds, 'DicomStack', 'get_data')
     exprs = []
